@@ -237,6 +237,7 @@ spif_mbuff_init_from_fp(spif_mbuff_t self, FILE *fp)
 
         if (fread(self->buff, file_size, 1, fp) < 1) {
             FREE(self->buff);
+            self->len = self->size = 0;
             return FALSE;
         }
     }
@@ -287,6 +288,7 @@ spif_mbuff_init_from_fd(spif_mbuff_t self, int fd)
 
         if (read(fd, self->buff, file_size) < 1) {
             FREE(self->buff);
+            self->len = self->size = 0;
             return FALSE;
         }
     }
@@ -450,7 +452,12 @@ spif_mbuff_cmp_with_ptr(spif_mbuff_t self, spif_byteptr_t other, spif_memidx_t l
     int c;
 
     SPIF_OBJ_COMP_CHECK_NULL(self, other);
-    c = memcmp(SPIF_MBUFF_BUFF(self), other, len);
+    /* Compare the first len bytes, but never read past the end of self's
+       buffer:  a buffer too small for len that matches so far sorts first. */
+    c = memcmp(SPIF_MBUFF_BUFF(self), other, MIN(self->size, len));
+    if ((c == 0) && (self->size < len)) {
+        return SPIF_CMP_LESS;
+    }
     return SPIF_CMP_FROM_INT(c);
 }
 
@@ -491,7 +498,7 @@ spif_mbuff_index(spif_mbuff_t self, spif_uint8_t c)
     spif_memidx_t i;
 
     ASSERT_RVAL(!SPIF_MBUFF_ISNULL(self), ((spif_memidx_t) -1));
-    for (tmp = self->buff, i = 0; ((int) *tmp != (int) (c)) && (i < self->len); i++, tmp++);
+    for (tmp = self->buff, i = 0; (i < self->len) && ((int) *tmp != (int) (c)); i++, tmp++);
     return (spif_memidx_t) ((spif_long_t) tmp - (spif_long_t) self->buff);
 }
 
@@ -501,7 +508,7 @@ spif_mbuff_ncmp(spif_mbuff_t self, spif_mbuff_t other, spif_memidx_t cnt)
     int c;
 
     SPIF_OBJ_COMP_CHECK_NULL(self, other);
-    if (cnt > self->len || cnt > other->len) {
+    if (cnt < 0 || cnt > self->len || cnt > other->len) {
         cnt = MIN(self->len, other->len);
     }
     c = memcmp(SPIF_MBUFF_BUFF(self), SPIF_MBUFF_BUFF(other), cnt);
@@ -563,15 +570,16 @@ spif_mbuff_reverse(spif_mbuff_t self)
 spif_memidx_t
 spif_mbuff_rindex(spif_mbuff_t self, spif_uint8_t c)
 {
-    spif_byteptr_t tmp;
+    spif_memidx_t i;
 
     ASSERT_RVAL(!SPIF_MBUFF_ISNULL(self), ((spif_memidx_t) -1));
-    for (tmp = self->buff + self->len - 1; (*tmp != c) && (tmp >= self->buff); tmp--);
+    /* Test the bound before reading; an empty buffer has nothing to look at. */
+    for (i = self->len - 1; (i >= 0) && (self->buff[i] != c); i--);
 
-    if ((tmp == self->buff) && (*tmp != c)) {
+    if (i < 0) {
         return (spif_memidx_t) (self->len);
     } else {
-        return (spif_memidx_t) ((spif_long_t) tmp - (spif_long_t) self->buff);
+        return i;
     }
 }
 
@@ -603,7 +611,7 @@ spif_mbuff_splice(spif_mbuff_t self, spif_memidx_t idx, spif_memidx_t cnt, spif_
         memcpy(ptmp, other->buff, other->len);
         ptmp += other->len;
     }
-    memcpy(ptmp, self->buff + idx + cnt, self->len - idx - cnt + 1);
+    memcpy(ptmp, self->buff + idx + cnt, self->len - idx - cnt);
     if (self->size < newsize) {
         self->buff = (spif_byteptr_t) REALLOC(self->buff, newsize);
         self->size = newsize;
@@ -743,6 +751,10 @@ spif_mbuff_trim(spif_mbuff_t self)
     spif_byteptr_t start, end;
 
     ASSERT_RVAL(!SPIF_MBUFF_ISNULL(self), FALSE);
+    if (!self->len) {
+        /* Nothing to trim (and possibly no buffer at all). */
+        return TRUE;
+    }
     start = self->buff;
     end = self->buff + self->len - 1;
     for (; isspace((spif_uchar_t) (*start)) && (start < end); start++);
